@@ -47,6 +47,21 @@ CHECKS = {
         technique="deterministic simulation: invalid requests mixed into live command histories on simulated devices; oracle = specific exception + no event at any seam + unchanged target state; 256 opcode values enumerated",
         text="Histories of valid facade calls and invalid requests of the five classes the property names (block size 0 incl. ATA byte_block/t_type, opcodes without fixed CDB length, unknown PR IN service actions, EXTENDED COPY unknown keys/type codes for SPC-4 and SPC-5, inconsistent TransportIDs) run against a live simulated target; for each invalid request the seam log between request and exception must be empty and the target's state digest unchanged. All 256 opcode values are enumerated through init_cdb and a constructor.",
         note="Exception classes minted per command class are compared by name. Residue of refused constructions in shared state is C09's."),
+    "C11": dict(
+        category="exploration", design_ref="DESIGN.md 5/C11, 4.7",
+        technique="deterministic simulation with fault injection: corrupt_datain / sense_payload faults applied to a live simulated target's well-formed responses (biased to embedded length/count fields), deterministic step meter (sys.settrace line events) as bounded-liveness oracle",
+        text="Bounded liveness: every facade call and every direct decode of the corrupted bytes must return or raise within 20000 + 400*len(buffer) source-line steps of library code, a budget >25x the steepest honest decoder, so a non-terminating loop is a reproducible budget violation (not a wall-clock kill) and a merely slower decoder is not. Seeded corruption of every data-in format incl. all PR IN service actions, VPD pages, READ ELEMENT STATUS with volume tags, READ CD layouts; the sense-code space is swept under the meter.",
+        note="Sampling of a 2**(8n) space: the bias towards zero/maximal/inconsistent length fields is what finds loops; what decoders return for corrupt data is not judged. Buffers up to 16 KiB."),
+    "C18": dict(
+        category="exploration", design_ref="DESIGN.md 5/C18",
+        technique="model-based simulation of operation histories (no faults, no schedule: the degenerate case, stated in DESIGN 2): seeded add/remove/lookup/keys histories on several live Enums compared step by step with a dict reference model",
+        text="Histories of up to 30 operations on up to 4 Enums alive at once, values of many kinds incl. equal values on different names, OpCode objects and non-identifier names; after every operation every live Enum is compared with its own dict model (names in order, values, reverse lookup of every present and of absent values, KeyError exactly where the model says), which also shows that operating on one Enum never changes another.",
+        note="Names starting with '__', type/Enum API attribute names, callable values and NaN are excluded because the property's wording does not fix their behaviour."),
+    "C19": dict(
+        category="fault_enumeration", design_ref="DESIGN.md 5/C19",
+        technique="deterministic simulation with fault injection at the installation seam: each run imports the library freshly under one of the 4 presence combinations of fake sgio/iscsi bindings (absence = injected fault), then drives init_device/constructors with device strings; oracle over the seam history (no open/stat/connect before a refusal)",
+        text="The four binding configurations x 17 device strings x rw x {init_device, SCSIDevice, ISCSIDevice} x initiator-name variants are enumerated completely in both tiers and random strings are added; every module under pyscsi is imported, every command class built/encoded/decoded and the facade driven over a plain device in each configuration. For refused requests the seam log must be empty; for accepted ones it must show exactly one open/connect on exactly the requested path/URL with the requested mode and initiator name.",
+        note="Absence is simulated with sys.modules[name]=None (ImportError); the real bindings' behaviour for malformed paths/URLs is stubbed leniently."),
 }
 
 NOT_APPLICABLE = {
